@@ -60,6 +60,9 @@ func init() {
 		"(encoding/binary.bigEndian).Uint32":    specBEGet(4),
 		"(encoding/binary.bigEndian).Uint64":    specBEGet(8),
 		"math/bits.RotateLeft32": specRotl32,
+		"(*sync/atomic.Bool).Load":           specAtomicBool("Load"),
+		"(*sync/atomic.Bool).Store":          specAtomicBool("Store"),
+		"(*sync/atomic.Bool).CompareAndSwap": specAtomicBool("CompareAndSwap"),
 		"maps.Values": specMapsSeq(1),
 		"maps.Keys":   specMapsSeq(0),
 		"slices.Collect": specSlicesCollect,
@@ -95,42 +98,55 @@ func specLock(op string) specFn {
 	}
 }
 
+// Byte strings are compared through their content abstraction: bytes_str(b) is the
+// string with b's content, str_cmp is the lexicographic total order on strings.
 func (c *Ctx) bytesAxioms(s string) {
-	fn := "bytes_cmp_" + s
-	c.decls.declFun(fn, []string{s, s}, "Int")
-	c.trust("bytes.Compare/Equal/HasPrefix: lexicographic total order on byte strings (axiomatised: range {-1,0,1}, antisymmetry, transitivity, equality = same length and content, prefix implies <=)")
-	c.decls.axiom(fn+"/range", fmt.Sprintf("(forall ((a %s) (b %s)) (! (and (<= (- 1) (%s a b)) (<= (%s a b) 1)) :pattern ((%s a b))))", s, s, fn, fn, fn))
-	c.decls.axiom(fn+"/anti", fmt.Sprintf("(forall ((a %s) (b %s)) (! (= (%s a b) (- (%s b a))) :pattern ((%s a b))))", s, s, fn, fn, fn))
-	c.decls.axiom(fn+"/refl", fmt.Sprintf("(forall ((a %s)) (! (= (%s a a) 0) :pattern ((%s a a))))", s, fn, fn))
-	c.decls.axiom(fn+"/trans", fmt.Sprintf("(forall ((a %s) (b %s) (c %s)) (! (=> (and (<= (%s a b) 0) (<= (%s b c) 0)) (and (<= (%s a c) 0) (=> (or (< (%s a b) 0) (< (%s b c) 0)) (< (%s a c) 0)))) :pattern ((%s a b) (%s b c))))", s, s, s, fn, fn, fn, fn, fn, fn, fn, fn))
-	c.decls.axiom(fn+"/eq", fmt.Sprintf("(forall ((a %s) (b %s)) (! (=> (= (%s a b) 0) (= (len_%s a) (len_%s b))) :pattern ((%s a b))))", s, s, fn, s, s, fn))
+	c.strAxioms()
+	c.decls.declFun("bytes_str", []string{s}, "Str")
+	c.decls.axiom("bytes_str", fmt.Sprintf("(forall ((b %s)) (! (=> (<= 0 (len_%s b)) (= (str_len (bytes_str b)) (len_%s b))) :pattern ((bytes_str b))))", s, s, s))
+	c.decls.declFun("str_cmp", []string{"Str", "Str"}, "Int")
+	c.trust("bytes.Compare/Equal/HasPrefix and string comparison: lexicographic total order on content (axiomatised: range {-1,0,1}, zero iff equal content, antisymmetry, transitivity, prefix implies <=, prefix ranges convex)")
+	c.decls.axiom("str_cmp/range", "(forall ((a Str) (b Str)) (! (and (<= (- 1) (str_cmp a b)) (<= (str_cmp a b) 1) (= (= (str_cmp a b) 0) (= a b)) (= (str_cmp a b) (- (str_cmp b a)))) :pattern ((str_cmp a b))))")
+	c.decls.axiom("str_cmp/trans", "(forall ((a Str) (b Str) (c Str)) (! (=> (and (<= (str_cmp a b) 0) (<= (str_cmp b c) 0)) (and (<= (str_cmp a c) 0) (=> (or (< (str_cmp a b) 0) (< (str_cmp b c) 0)) (< (str_cmp a c) 0)))) :pattern ((str_cmp a b) (str_cmp b c))))")
+}
+
+func bytesKey(env *Env, v Val) string {
+	s := env.sortOf(v.Ty)
+	if s == "Str" {
+		return v.T
+	}
+	return app("bytes_str", v.T)
 }
 
 func specBytesCompare(env *Env, recv *Val, args []Val, st *State, call *ast.CallExpr) Val {
-	s := env.sortOf(args[0].Ty)
-	env.c.bytesAxioms(s)
-	return intVal(app("bytes_cmp_"+s, args[0].T, args[1].T))
+	env.c.bytesAxioms(env.sliceSortFor(args[0], args[1]))
+	return intVal(app("str_cmp", bytesKey(env, args[0]), bytesKey(env, args[1])))
+}
+
+func (env *Env) sliceSortFor(a, b Val) string {
+	for _, v := range []Val{a, b} {
+		if s := env.sortOf(v.Ty); strings.HasPrefix(s, "Sl_") {
+			return s
+		}
+	}
+	return env.sortOf(types.NewSlice(tByte))
 }
 
 func specBytesEqual(env *Env, recv *Val, args []Val, st *State, call *ast.CallExpr) Val {
-	s := env.sortOf(args[0].Ty)
-	env.c.bytesAxioms(s)
-	return boolVal(eq(app("bytes_cmp_"+s, args[0].T, args[1].T), "0"))
+	env.c.bytesAxioms(env.sliceSortFor(args[0], args[1]))
+	return boolVal(eq(bytesKey(env, args[0]), bytesKey(env, args[1])))
 }
 
 func specBytesHasPrefix(env *Env, recv *Val, args []Val, st *State, call *ast.CallExpr) Val {
 	c := env.c
-	s := env.sortOf(args[0].Ty)
-	c.bytesAxioms(s)
-	fn := "bytes_hasprefix_" + s
-	cmp := "bytes_cmp_" + s
-	c.decls.declFun(fn, []string{s, s}, "Bool")
-	// prefix p of k: p <= k ; every key between two keys with prefix p has prefix p (convexity)
-	c.decls.axiom(fn+"/le", fmt.Sprintf("(forall ((k %s) (p %s)) (! (=> (%s k p) (and (<= (%s p k) 0) (<= (len_%s p) (len_%s k)))) :pattern ((%s k p))))", s, s, fn, cmp, s, s, fn))
-	c.decls.axiom(fn+"/convex", fmt.Sprintf("(forall ((a %s) (b %s) (m %s) (p %s)) (! (=> (and (%s a p) (%s b p) (<= (%s a m) 0) (<= (%s m b) 0)) (%s m p)) :pattern ((%s a p) (%s b p) (%s m p))))", s, s, s, s, fn, fn, cmp, cmp, fn, fn, fn, fn))
-	c.decls.axiom(fn+"/self", fmt.Sprintf("(forall ((k %s)) (! (%s k k) :pattern ((%s k k))))", s, fn, fn))
-	c.decls.axiom(fn+"/eqcongr", fmt.Sprintf("(forall ((a %s) (b %s) (p %s)) (! (=> (and (= (%s a b) 0) (%s a p)) (%s b p)) :pattern ((%s a b) (%s a p))))", s, s, s, cmp, fn, fn, cmp, fn))
-	return boolVal(app(fn, args[0].T, args[1].T))
+	c.bytesAxioms(env.sliceSortFor(args[0], args[1]))
+	fn := "str_hasprefix"
+	c.decls.declFun(fn, []string{"Str", "Str"}, "Bool")
+	c.decls.axiom(fn+"/le", "(forall ((k Str) (p Str)) (! (=> (str_hasprefix k p) (and (<= (str_cmp p k) 0) (<= (str_len p) (str_len k)))) :pattern ((str_hasprefix k p))))")
+	c.decls.axiom(fn+"/convex", "(forall ((a Str) (b Str) (m Str) (p Str)) (! (=> (and (str_hasprefix a p) (str_hasprefix b p) (<= (str_cmp a m) 0) (<= (str_cmp m b) 0)) (str_hasprefix m p)) :pattern ((str_hasprefix a p) (str_hasprefix b p) (str_hasprefix m p))))")
+	c.decls.axiom(fn+"/self", "(forall ((k Str)) (! (str_hasprefix k k) :pattern ((str_hasprefix k k))))")
+	c.decls.axiom(fn+"/empty", "(forall ((k Str)) (! (str_hasprefix k str_empty) :pattern ((str_hasprefix k str_empty))))")
+	return boolVal(app(fn, bytesKey(env, args[0]), bytesKey(env, args[1])))
 }
 
 func specTimeCmp(op string) specFn {
@@ -463,4 +479,41 @@ func specSlicesValues(env *Env, recv *Val, args []Val, st *State, call *ast.Call
 	st.assume(eq(app(c.seqLenFn(ss), sv), app("len_"+s, sl.T)))
 	st.assume(fmt.Sprintf("(forall ((%s Int)) (! (= (%s %s %s) (select (arr_%s %s) %s)) :pattern ((%s %s %s))))", i, at, sv, i, s, sl.T, i, at, sv, i))
 	return Val{T: sv, Ty: seqT}
+}
+
+// specAtomicBool models an atomic.Bool struct field x.f as the ghost field x.fFlag (bool).
+func specAtomicBool(op string) specFn {
+	return func(env *Env, recv *Val, args []Val, st *State, call *ast.CallExpr) Val {
+		c := env.c
+		sel, ok := unparen(call.Fun).(*ast.SelectorExpr)
+		var fsel *ast.SelectorExpr
+		if ok {
+			fsel, ok = unparen(sel.X).(*ast.SelectorExpr)
+		}
+		if !ok {
+			c.unsupported("atomic.Bool not reached through a struct field")
+			return boolVal(c.fresh("atomic", "Bool"))
+		}
+		base := env.eval(fsel.X, st)
+		_, sty, isPtr := structOf(env.subst(base.Ty))
+		if sty == nil || !isPtr {
+			c.unsupported("atomic.Bool field of a non-pointer struct")
+			return boolVal(c.fresh("atomic", "Bool"))
+		}
+		c.trust("atomic.Bool fields are modelled as ghost boolean fields <name>Flag (sequentially consistent)")
+		key := env.structSortOf(base.Ty) + ".$" + fsel.Sel.Name + "Flag"
+		h := env.heapTerm(st, key, "Bool")
+		cur := app("select", h, base.T)
+		switch op {
+		case "Load":
+			return boolVal(cur)
+		case "Store":
+			st.heap[key] = app("store", h, base.T, args[0].T)
+			return Val{}
+		default: // CompareAndSwap(old, new)
+			okv := eq(cur, args[0].T)
+			st.heap[key] = app("store", h, base.T, ite(okv, args[1].T, cur))
+			return boolVal(okv)
+		}
+	}
 }
